@@ -240,6 +240,9 @@ on an invalid Parameter). -/
 structure Opt where
   needsStats : Bool
   params : List PId := []
+  /-- observation, not a member: the log of `configure_parameter` calls (one
+  entry per call, whether it returned or threw) -/
+  configs : List PId := []
 deriving DecidableEq, Repr, Inhabited
 
 namespace Opt
@@ -249,8 +252,14 @@ namespace Opt
 patches/fix-optimizer-add-order.diff configures first. -/
 def addParam (valid : PId → Bool) (o : Opt) (p : PId) : Out Opt :=
   if p ∈ o.params then .ok o
-  else if o.needsStats && !valid p then .error o
-  else .ok { o with params := o.params ++ [p] }
+  else
+    -- configure_parameter(param) runs (logged), then params_.insert(&param)
+    let o1 := { o with configs := o.configs ++ [p] }
+    if o.needsStats && !valid p then .error o1
+    else .ok { o1 with params := o.params ++ [p] }
+
+/-- how often `configure_parameter` ran for `p` -/
+def configCount (o : Opt) (p : PId) : Nat := o.configs.count p
 
 /-- the loop of `add_inner(const Model &)` over the map's values, in key order -/
 def addList (valid : PId → Bool) (o : Opt) : List PId → Out Opt
